@@ -4,7 +4,7 @@
    failure, a refused thread start. *)
 From Coq Require Import Lia.
 From Coq Require Import Permutation.
-From Torf Require Import Base Pipeline PipelineProofs FlowProofs ThreadProofs DeadlockProofs ConservationProofs ReaderDoneProofs DrainProofs TerminationProofs VerifyTrueProofs VerifyFalseProofs CompleteProofs ExceptionProofs CallbackRaiseProofs ReaderErrorProofs StopProofs PipeExplore PipeExploreProofs PipeConfigs.
+From Torf Require Import Base Pipeline PipelineProofs FlowProofs ThreadProofs DeadlockProofs ConservationProofs ReaderDoneProofs DrainProofs TerminationProofs VerifyTrueProofs VerifyFalseProofs CompleteProofs ExceptionProofs CallbackRaiseProofs ReaderErrorProofs StopProofs NoCallbackProofs NoCallbackGenProofs PipeExplore PipeExploreProofs PipeConfigs.
 Open Scope Z_scope.
 
 (* the callback cancels from the second piece on (3 pieces): under every schedule the call returns
@@ -154,6 +154,16 @@ Theorem C04_reader_error_reaches_caller : forall c s r e,
   (1 <= cf_hashers c)%nat -> reach c s -> s_result s = Some r -> r <> ResRuntimeError 1 -> s_rexc s = Some e -> r = ResRaise e.
 Proof. exact reader_error_reaches_caller. Qed.
 Print Assumptions C04_reader_error_reaches_caller.
+
+(* UNBOUNDED: without a callback a hashing run over readable content never returns False -- a run that returns a verdict
+   returns True with exactly the reference hashes; otherwise the call raises (and then, by the theorem below, only an
+   error of the reader).  Every schedule, hasher count, out-of-memory handling and clock. *)
+Theorem C04_generate_without_callback_never_false : forall c,
+  cf_plan c = CbAbsent -> cf_verify c = None -> forall s r hs,
+  (1 <= cf_hashers c)%nat -> reach c s -> yielded (cf_items c) = map RPiece hs -> cf_total c = zlen hs ->
+  s_result s = Some r -> verdict r -> r = ResTrue /\ sorted_hashes (s_hashes s) = hs.
+Proof. exact generate_without_callback_never_false. Qed.
+Print Assumptions C04_generate_without_callback_never_false.
 
 (* hashing readable content without a callback raises nothing but an error of the reader (iterator failure, ENOMEM) *)
 Theorem C04_generate_raises_only_reader_errors : forall c s e hs,
